@@ -86,6 +86,7 @@ fn main() {
         "selection" => run_engine(engines::selection::SelectionEngine::new(), mode, rest),
         "stallguard" => run_engine(engines::stallguard::StallGuardEngine::new(), mode, rest),
         "weakfilter" => run_engine(engines::weakfilter::WeakFilterEngine::new(), mode, rest),
+        "registration" => run_engine(engines::registration::RegistrationEngine::new(), mode, rest),
         _ => {
             eprintln!("unknown engine {engine}");
             std::process::exit(2)
